@@ -366,7 +366,7 @@ MANIFEST = dict(
         "charts with fractional/negative times are written to text that the strict reference parser accepts and that "
         "denotes the same chart with every time truncated toward zero by < 1 ms; ~540 five-generation write/read chains "
         "show no drift. The x<->column map is checked exhaustively. Sampling cannot prove absence for the text/chart "
-        "spaces; the class counters in the evidence show each generator branch is exercised."
+        "spaces; the class counters in the evidence show each generator branch is exercised. In the thorough tier an atheris/libFuzzer campaign drives the same strategy (coverage.fuzz in the evidence); the 30 real .osu files shipped with the repository are read and compared with the reference in both tiers."
     ),
     level_note=(
         "trusted: vlib/ref/osu.py (format rules from the osu! wiki), unidecode, Hypothesis; domain limits listed under "
